@@ -249,8 +249,13 @@ def gen_case(rng, sid, quick):
     pool = endpoints_pool(rng)
     conns = pool[:rng.choice([1, 2, 3, 5, len(pool)])]
     scripts = [conn_script(rng, c, attach, big=overflow and rng.random() < 0.5, overflow=overflow) for c in conns]
-    # a closed connection may come back on the same 4-tuple
-    if rng.random() < 0.2:
+    # a closed connection may come back on the same 4-tuple (only when the first incarnation really ended with an RST or a
+    # FIN from both sides: otherwise the new ISNs would be arbitrary sequence numbers inside a connection that is still
+    # tracked, which no reassembly guarantee covers - false alarm seen with VERIF_SEED=21)
+    def ended(pk):
+        fins = set((p['src'], p['sport']) for p in pk if p['flags'] & FIN)
+        return any(p['flags'] & RST for p in pk) or len(fins) == 2
+    if rng.random() < 0.3 and ended(scripts[0]):
         scripts[0] = scripts[0] + conn_script(rng, conns[0], attach)
     merged = []
     qs = [list(s) for s in scripts]
